@@ -111,6 +111,15 @@ pub fn gen_c03(t: &mut Tape, cfg: &GenCfg) -> SolveCase {
     // degenerate variant: duplicate a constraint row block (redundant constraints)
     let mut st = gen_settings(t);
     stress_settings(t, &mut st);
+    if t.chance(0.3) {
+        // reduced ("almost") tolerances are settings too
+        st.reduced_tol_gap_abs = t.log_uniform(1e-7, 1e-1);
+        st.reduced_tol_gap_rel = t.log_uniform(1e-7, 1e-1);
+        st.reduced_tol_feas = t.log_uniform(1e-7, 1e-1);
+        st.reduced_tol_infeas_abs = t.log_uniform(1e-13, 1e-6);
+        st.reduced_tol_infeas_rel = t.log_uniform(1e-7, 1e-1);
+        st.reduced_tol_ktratio = t.log_uniform(1e-6, 1e-2);
+    }
     SolveCase { ps, st }
 }
 
@@ -203,7 +212,25 @@ pub fn check_c03(c: &SolveCase, ctx: &mut Ctx) -> CheckResult {
         ctx.discard = true;
         return Ok(());
     }
-    let out = run_caught(c)?;
+    // every other case re-submits the same b and q through the update API before solving: the report
+    // must not depend on whether cached norms were computed at construction or recomputed lazily
+    let touch = c.ps.n % 2 == 0;
+    let out = if touch {
+        catch(|| {
+            let mut solver = build_solver(&c.ps, &c.st);
+            let ok = solver.update_b(&c.ps.b.iter().map(|v| v.min(bound)).collect::<Vec<f64>>()).is_ok() && solver.update_q(&c.ps.q).is_ok();
+            (run_built(solver, &c.st), ok)
+        })
+        .map(|(o, ok)| {
+            if ok {
+                ctx.label("data-resubmitted-through-update");
+            }
+            o
+        })
+        .map_err(|p| format!("panic during new/update/solve: {p}"))?
+    } else {
+        run_caught(c)?
+    };
     ctx.sub_evals += 1;
     label_case(&c.ps, &c.st, &out, ctx);
     ctx.nontrivial();
@@ -237,7 +264,7 @@ fn extreme(t: &mut Tape) -> f64 {
 }
 
 pub fn gen_c04(t: &mut Tape) -> C04Case {
-    let cfg = GenCfg { nmax: 5, mmax: 12, allow_psd: true, allow_nonsym: true, allow_empty_cones: true, psd_max: 3, soc_max: 5, magnitude: 3.0 };
+    let cfg = GenCfg { nmax: 5, mmax: 12, allow_psd: true, allow_nonsym: true, allow_empty_cones: true, psd_max: 3, soc_max: 5, magnitude: 3.0, near_prob: 0.25, extreme_alpha: true };
     let mut ps = match t.weighted(&[3, 1, 1, 4]) {
         0 => gen_feasible(t, &cfg),
         1 => gen_primal_infeasible(t, &cfg),
@@ -259,7 +286,7 @@ pub fn gen_c04(t: &mut Tape) -> C04Case {
                     7 => ConeSpec::Nonneg(t.usize_in(1, 3)),
                     8 => ConeSpec::Soc(t.usize_in(2, 5)),
                     9 => ConeSpec::Exp,
-                    10 => ConeSpec::Pow(gen_alpha(t)),
+                    10 => ConeSpec::Pow(gen_alpha(t, true)),
                     _ => ConeSpec::Psd(t.usize_in(2, 3)),
                 });
             }
@@ -302,7 +329,8 @@ pub fn gen_c04(t: &mut Tape) -> C04Case {
     };
     let mut st = gen_settings(t);
     st.max_iter = t.choose(&[200u32, 0, 1, 2, 5, 50]);
-    st.time_limit = t.choose(&[f64::INFINITY, f64::INFINITY, 0.0, 1e-12, 1e-3]);
+    st.time_limit = t.choose(&[f64::INFINITY, f64::INFINITY, 0.0, 1e-12, 1e-3, 2e-5, 1e-4]);
+    st.verbose = t.chance(0.3); // printed to an in-memory buffer
     let ill = if t.chance(0.15) {
         let k = t.below(6);
         Some(match k {
@@ -399,6 +427,29 @@ pub fn check_c04(c: &C04Case, ctx: &mut Ctx) -> CheckResult {
         if c.st.max_iter == 0 {
             ctx.label("max_iter=0");
         }
+        if c.st.verbose {
+            ctx.label("verbose");
+            ensure!(!out.printed.is_empty(), "verbose run printed nothing");
+        }
+        // the clock the limit is compared against must advance with every iteration, and no iteration
+        // may start once it has passed the limit
+        ensure!(!out.checks.is_empty(), "no termination check was recorded");
+        for w in out.checks.windows(2) {
+            ensure!(w[1].1 > w[0].1, "elapsed time seen by the termination check did not advance between iterations {} and {} ({:e} -> {:e})", w[0].0, w[1].0, w[0].1, w[1].1);
+        }
+        let nchk = out.checks.len();
+        let last_iter = out.checks.last().unwrap().0;
+        for (it, tm) in out.checks.iter() {
+            // (a check can be repeated at the same iteration count when the scaling strategy is switched;
+            // what must not happen is a further iteration after the limit was seen to be exceeded)
+            ensure!(*tm <= c.st.time_limit || *it == last_iter, "iteration {} was performed although the elapsed time {:e} seen at iteration {} already exceeded time_limit {:e}", last_iter, tm, it, c.st.time_limit);
+        }
+        if nchk >= 3 && c.st.time_limit.is_finite() {
+            ctx.label("time-limit-checked-over>=3-iterations");
+        }
+        if out.status == SolverStatus::MaxTime {
+            ensure!(out.checks.last().unwrap().1 > c.st.time_limit, "MaxTime reported although elapsed {:e} <= time_limit {:e}", out.checks.last().unwrap().1, c.st.time_limit);
+        }
         if out.status == SolverStatus::MaxIterations {
             ensure!(out.iterations == c.st.max_iter, "MaxIterations reported after {} of {} iterations", out.iterations, c.st.max_iter);
         }
@@ -412,9 +463,9 @@ pub fn check_c04(c: &C04Case, ctx: &mut Ctx) -> CheckResult {
 
 fn cfg_for(run: &PropRun, large: bool) -> GenCfg {
     if large && !run.cfg.quick() {
-        GenCfg { nmax: 40, mmax: 90, allow_psd: true, allow_nonsym: true, allow_empty_cones: true, psd_max: 7, soc_max: 15, magnitude: 10.0 }
+        GenCfg { nmax: 40, mmax: 90, allow_psd: true, allow_nonsym: true, allow_empty_cones: true, psd_max: 7, soc_max: 15, magnitude: 10.0, near_prob: 0.25, extreme_alpha: true }
     } else if large {
-        GenCfg { nmax: 20, mmax: 45, allow_psd: true, allow_nonsym: true, allow_empty_cones: true, psd_max: 5, soc_max: 10, magnitude: 5.0 }
+        GenCfg { nmax: 20, mmax: 45, allow_psd: true, allow_nonsym: true, allow_empty_cones: true, psd_max: 5, soc_max: 10, magnitude: 5.0, near_prob: 0.25, extreme_alpha: true }
     } else {
         GenCfg::small()
     }
